@@ -67,6 +67,48 @@ class Sym:
         return f"{self.kind}:{self.arg}"
 
 
+def _subst_sym(v, old, new, _depth=0):
+    """replace the symbol `old` by `new` inside a value (symbols, tuples, lists, sets, dicts, dataclasses)"""
+    import dataclasses
+    if _depth > 8:
+        return v
+    if isinstance(v, Sym):
+        if v == old:
+            return new
+        a = _subst_sym(v.arg, old, new, _depth + 1)
+        return v if a is v.arg else Sym(v.kind, a)
+    if isinstance(v, tuple) and not dataclasses.is_dataclass(v):
+        out = tuple(_subst_sym(x, old, new, _depth + 1) for x in v)
+        return v if all(a is b for a, b in zip(out, v)) else (type(v)(*out) if hasattr(v, "_fields") else out)
+    if isinstance(v, list):
+        out = [_subst_sym(x, old, new, _depth + 1) for x in v]
+        return v if all(a is b for a, b in zip(out, v)) else out
+    if isinstance(v, frozenset):
+        out = [_subst_sym(x, old, new, _depth + 1) for x in v]
+        if all(a is b or a == b for a, b in zip(out, v)):
+            return v
+        try:
+            return type(v)(out)
+        except Exception:
+            return v
+    if isinstance(v, dict):
+        out = {k: _subst_sym(x, old, new, _depth + 1) for k, x in v.items()}
+        return v if all(out[k] is v[k] for k in v) else out
+    if dataclasses.is_dataclass(v) and not isinstance(v, type):
+        ch = {}
+        for f in dataclasses.fields(v):
+            cur = getattr(v, f.name)
+            nv = _subst_sym(cur, old, new, _depth + 1)
+            if nv is not cur and nv != cur:
+                ch[f.name] = nv
+        if ch:
+            try:
+                return dataclasses.replace(v, **ch)
+            except Exception:
+                return v
+    return v
+
+
 VIEW_METHODS = {"reshape", "transpose", "view", "swapaxes", "squeeze", "ravel"}
 VIEW_ATTRS = {"T", "real", "imag", "flat", "base"}
 COPY_METHODS = {"flatten", "copy", "astype", "conj", "conjugate"}
@@ -527,6 +569,11 @@ class Interp:
             if isinstance(a, ast.Name) and isinstance(b, ast.Name):
                 va, vb = st.env.get(a.id), st.env.get(b.id)
                 if isinstance(va, Sym) and isinstance(vb, Sym) and va.kind == "name" and vb.kind == "name":
+                    # the two names denote one layout on this path: every value already derived from `b` is rewritten too
+                    # (look-ups hoisted above the test must not keep the other name)
+                    for k in list(st.env):
+                        st.env[k] = _subst_sym(st.env[k], vb, va)
+                    st.tok = _subst_sym(st.tok, vb, va)
                     st.env[b.id] = va
                     st.env["<same-name>"] = True
 
